@@ -546,10 +546,74 @@ fn env_deviations<P: G>(cfg: Cfg) -> Box<dyn Case> {
     })
 }
 
+/// Shape (f): small batches mixing honest proofs with proofs whose defects are equal and opposite; the batch verdict
+/// must be the conjunction of the reference verdicts of its members
+fn shape_batches<P: G>(cfg: Cfg) -> Box<dyn Case> {
+    case(format!("{}/{}/batch-verdicts", P::NAME, cfg.key()), move |_v| {
+        fg::clear_intern();
+        let mut res = CaseResult::new("explored");
+        if cfg.rounds() == 0 {
+            return res;
+        }
+        let delta = Scalar::from(0xdead_beefu64);
+        // member kinds: honest, d1[k]+delta, d1[k]-delta (k = 0 and last), r1+1
+        let kinds: Vec<(&str, i8, usize)> = vec![("honest", 0, 0), ("d1[0]+", 1, 0), ("d1[0]-", -1, 0), ("d1[last]+", 1, cfg.d - 1), ("d1[last]-", -1, cfg.d - 1), ("r1+1", 2, 0)];
+        let mut members: Vec<Vec<(RangeStatement<P>, tari_bulletproofs_plus::range_proof::RangeProof<P>, bool)>> = Vec::new();
+        for pos in 0..2usize {
+            let mut row = Vec::new();
+            let mut wit = Wit::default_for(&cfg);
+            for j in 0..cfg.m {
+                for k in 0..cfg.d {
+                    wit.blindings[j][k] = blinding(300 + pos * 40 + j, k);
+                }
+            }
+            let built = build_cached::<P>(&cfg, &wit).expect("valid");
+            let proof = lib_prove(&built, &CTX_A, &mut HRng::chacha(70 + pos as u64)).expect("honest");
+            let rp = ref_proof_of(&proof).unwrap();
+            let rst = ref_statement(&built.statement);
+            for (_, sign, k) in &kinds {
+                let mut q = rp.clone();
+                match sign {
+                    1 => q.d1[*k] += delta,
+                    -1 => q.d1[*k] -= delta,
+                    2 => q.r1 += Scalar::ONE,
+                    _ => {},
+                }
+                let mut t = CTX_A.transcript();
+                let ok = refbp::ref_verify(&mut t, &rst, &q).verdict.accepts();
+                let lp = P::from_bytes(&refbp::ref_encode(&q)).expect("decodes");
+                row.push((built.statement.clone(), lp, ok));
+            }
+            members.push(row);
+        }
+        for a in 0..kinds.len() {
+            for b in 0..kinds.len() {
+                res.transitions += 1;
+                let (sa, pa, oka) = &members[0][a];
+                let (sb, pb, okb) = &members[1][b];
+                let sts = vec![sa.clone(), sb.clone()];
+                let proofs = vec![P::proof_clone(pa), P::proof_clone(pb)];
+                let mut ts = vec![CTX_A.transcript(), CTX_A.transcript()];
+                let obs = verify_observed(&sts, &proofs, &mut ts, VerifyAction::VerifyOnly);
+                res.executions += 1;
+                res.validated += 1;
+                *res.outcome_counter(if obs.is_ok() { "batch-accept" } else { "batch-reject" }) += 1;
+                if obs.panic.is_some() || obs.is_ok() != (*oka && *okb) {
+                    res.violate(
+                        format!("[{},{}]", kinds[a].0, kinds[b].0),
+                        format!("batch [{}, {}]: library says {} but the reference verdicts of the members are [{}, {}]", kinds[a].0, kinds[b].0, obs.describe(), oka, okb),
+                    );
+                }
+            }
+        }
+        res
+    })
+}
+
 pub fn run(rep: &mut Report) {
     rep.rule = "configuration lattice x proof shapes {honest, every single mutation of the wire form, generic (symbolic) proofs x \
                 response-scalar alphabet x promise alphabet, dishonest-witness proofs from the reference prover (v-p in {-1,2^n,2^n+1}, \
-                one non-bit digit at each position), wrong round counts / degrees} x environment deviations {zero challenge at each \
+                one non-bit digit at each position), wrong round counts / degrees, 2-member batches over {honest, d1[k]+/-delta (cancel under equal weights), r1+1}^2} x environment deviations {zero challenge at each \
                 draw, identity at each commitment generator}; oracle = verdict equality with the reference relation and (over F) \
                 equality of the compared element with weight x reference linear form as a coefficient vector"
         .into();
@@ -565,6 +629,7 @@ pub fn run(rep: &mut Report) {
         cases.push(shape_dishonest::<F>(*cfg));
         cases.push(shape_wrong_shape::<F>(*cfg));
         cases.push(env_deviations::<F>(*cfg));
+        cases.push(shape_batches::<F>(*cfg));
     }
     // Ristretto: verdict comparison on the quick lattice in both tiers (R's verifier is unoptimised)
     for cfg in lattice_quick() {
@@ -574,6 +639,9 @@ pub fn run(rep: &mut Report) {
         }
         cases.push(shape_wrong_shape::<RistrettoPoint>(cfg));
         cases.push(env_deviations::<RistrettoPoint>(cfg));
+        if cfg.big_n() <= 64 {
+            cases.push(shape_batches::<RistrettoPoint>(cfg));
+        }
     }
     rep.explore("C02", cases);
     rep.expect_sub_outcome("lib-accept");
